@@ -143,7 +143,7 @@ static Bytes encode_packet(const Model& m, const Inner& in) {
 }
 
 // ---- history ---------------------------------------------------------------------------------------------
-struct Step { int bit; u8 v[12]; bool copy_before; };
+struct Step { int bit; u8 v[12]; bool copy_before; bool raw = false; };      // raw: written through the generic add_option(option(field, size, bytes)) entry point instead of the typed setter
 struct Case { int start_kind; Model start; std::vector<Step> seq; Inner inner; };   // start_kind 0 = default ctor, 1 = parsed
 static const char* start_name(int k) { return k == 0 ? "default-ctor" : "parsed"; }
 static std::string show_val(int bit, const u8* v) { return std::string(FD[bit].name) + "=" + hex(v, FD[bit].size); }
@@ -151,7 +151,7 @@ static std::string show(const Case& c, size_t upto = (size_t)-1) {
     std::string d = std::string("start=") + start_name(c.start_kind);
     if (c.start_kind == 1) d += "(" + hexfull(canonical(c.start)) + ")";
     d += " inner=" + (c.inner.present ? hex(c.inner.bytes, 40) : std::string("none")) + " setters:";
-    for (size_t i = 0; i < c.seq.size(); ++i) { d += " "; if (c.seq[i].copy_before) d += "[copy] "; d += show_val(c.seq[i].bit, c.seq[i].v); if (i == upto) d += " <HERE>"; }
+    for (size_t i = 0; i < c.seq.size(); ++i) { d += " "; if (c.seq[i].copy_before) d += "[copy] "; if (c.seq[i].raw) d += "add_option:"; d += show_val(c.seq[i].bit, c.seq[i].v); if (i == upto) d += " <HERE>"; }
     return d;
 }
 static Model default_model() {
@@ -307,7 +307,7 @@ static void run_case(const Case& c, Rng& rng) {
         if (s.copy_before) { std::unique_ptr<RadioTap> cp(rt->clone()); rt.swap(cp); cnt("br:continued-on-clone"); }
         x.step = i; x.site = std::string("after-set:") + FD[s.bit].name; x.shape = repad_shape(m, s.bit);
         classify(m, s.bit, x.shape);
-        try { apply(*rt, s.bit, s.v); }
+        try { if (s.raw) { rt->add_option(RadioTap::option((RadioTap::PresentFlags)(1u << s.bit), FD[s.bit].size, s.v)); cnt("set-through-add_option"); } else apply(*rt, s.bit, s.v); }
         catch (...) { fail(x, "setter-exception/" + std::string(FD[s.bit].name) + "/" + current_exception_type() + (x.shape ? "/kf:repad" : ""), "setter threw"); return; }
         m.set(s.bit, s.v);
         cnt(std::string("set:") + FD[s.bit].name); cnt("steps");
@@ -360,7 +360,7 @@ static Case gen_random(Rng& r) {
         u32 focus = r.chance(1, 4) ? 2 + r.below(4) : 14;      // few fields, many repetitions
         int pool[14]; for (int i = 0; i < 14; ++i) pool[i] = SETTABLE[i];
         for (int i = 13; i > 0; --i) std::swap(pool[i], pool[r.below(i + 1)]);
-        for (u32 i = 0; i < n; ++i) { Step s; s.bit = pool[r.below(focus)]; gen_value(r, s.bit, s.v); s.copy_before = r.chance(1, 12); c.seq.push_back(s); }
+        for (u32 i = 0; i < n; ++i) { Step s; s.bit = pool[r.below(focus)]; gen_value(r, s.bit, s.v); s.copy_before = r.chance(1, 12); s.raw = r.chance(1, 5); c.seq.push_back(s); }
         cnt("histories:random-with-repetitions");
     }
     return c;
